@@ -109,7 +109,7 @@ func init() {
 		r.Rule += " Plus executor copies (WithContext with nil/background/value contexts: listeners of the copy and the original stay separate) and async executions cancelled while a cancellation-ignoring function runs or from the OnDone listener (events must match what Get returns). Plus rejection-event scenarios (bulkhead/limiter refused, or cancelled by context, deadline or outer Timeout while queueing: OnFull/OnRateLimitExceeded fire exactly for refusals), 3 000 breaker histories with manual Open/HalfOpen/Close and listener subsets (events only), 1 500 rounds of 2-8 goroutines driving one zero-delay breaker through executions, records and manual transitions with slow listeners (the event log must be a connected path ending in the breaker's final state, specific and generic listeners in step), Retry(Retry) and Hedge(Retry) executions in which the inner retry policy is re-entered after it gave up by max retries, max duration or abort (its OnRetriesExceeded/OnAbort fire at most once per execution), and concurrent rounds over shared executors where each execution must see exactly one OnDone and one of OnSuccess/OnFailure (attribution by a per-execution counter carried in the context)."
 	})
 	register("C17", func(r *vk.Report) {
-		eseqCheck(r, "C17", "stats", []string{"stats"})
+		eseqCheck(r, "C17", "stats", []string{"stats", "events:retry.", "events:fb."})
 		// statistics identity when an execution is cancelled in a retry delay, a policy wait or inside the function
 		// (the cancellation scenarios of C08, judged here only on the done event's counters)
 		n := scale(r, 1500, 60000)
@@ -194,7 +194,7 @@ var eseqRules = map[string]eseqRule{
 	"C10": {rule: "programs biased to contain fallbacks (WithResult/WithError/WithFunc x handle-condition lists) around every other policy kind; compared: fallback function invocations and the LastResult/LastError/statistics it is shown, OnFallbackExecuted/OnSuccess/OnFailure of the fallback, returned value, executor verdict. Non-trivial: a fallback was applied at least once; distinct by (kinds, fallback kind+conditions, failed outcomes handled)."},
 	"C11": {rule: "programs biased to contain cache policies (configured key ''/'a', context key absent/'a'/'b'/''/non-string, preloaded content, CacheIf none/always/result==5/error) around and inside other policies; compared: every Get/Set on an instrumented cache, cache events, invocation count, returned value, cache contents and the state/events of policies inside the cache policy. Non-trivial: >=1 hit or store; distinct by (kinds, key pattern, get/set sequence)."},
 	"C16": {rule: "programs with PRNG-chosen listener subsets per policy (all, none, only one, random) and executor listener subsets; the complete ordered event log of each execution (every listener the builders expose, with payload) is compared with the model's. Non-trivial: >=3 events in an execution; distinct by (kinds, listener masks, event-name sequence)."},
-	"C17": {rule: "programs biased to retries; statistics snapshots (Attempts, Executions, Retries, Hedges, IsHedge, IsFirstAttempt/IsRetry consistency, LastResult/LastError) at every function entry, in every listener and in the done event are compared with the model's counters. Non-trivial: >=1 retry or rejected attempt; distinct by (kinds, snapshot sequence)."},
+	"C17": {rule: "programs biased to retries; statistics snapshots (Attempts, Executions, Retries, Hedges, IsHedge, IsFirstAttempt/IsRetry consistency, LastResult/LastError) at every function entry, in every listener and in the done event are compared with the model's counters; the result and error each retry-policy and fallback listener is shown (LastResult/LastError of its event) are compared too. Non-trivial: >=1 retry or rejected attempt; distinct by (kinds, snapshot sequence)."},
 }
 
 func eseqCheck(rep *vk.Report, prop, bias string, facets []string) {
